@@ -26,6 +26,7 @@ FACETS = (
     "derived",  # derived-space tag for filtered axes, e.g. 'face\\am'
     "cls",  # ClassInfo for instances of repo classes
     "func",  # FuncInfo for function values
+    "vars",  # frozenset of schema variables that may flow into this value unchanged (union at joins)
 )
 
 
@@ -118,7 +119,9 @@ def join(a: AV, b: AV) -> AV:
     d = {}
     for k in set(a._d) | set(b._d):
         va, vb = a._d.get(k), b._d.get(k)
-        if k in ("origins", "src"):
+        if k == "vars":
+            d[k] = (va or frozenset()) | (vb or frozenset())
+        elif k in ("origins", "src"):
             if va is None or vb is None:
                 # unknown origin joined with known: keep the known ones (may-alias facts) for origins
                 d[k] = va if vb is None else vb
@@ -131,6 +134,9 @@ def join(a: AV, b: AV) -> AV:
                 d[k] = "may"
             elif va == vb:
                 d[k] = va
+        elif k == "unitlen":
+            if va is True and vb is True:
+                d[k] = True
         elif k == "elts":
             if va is not None and vb is not None and len(va) == len(vb):
                 d[k] = tuple(join(x, y) for x, y in zip(va, vb))
@@ -157,6 +163,10 @@ _SUB_RE = re.compile(r"^subgrid_(node|edge|face)_indices$")
 
 
 def schema_av(name: str, dsof="grid") -> AV:
+    return _schema_av(name, dsof).with_(vars=frozenset({name}))
+
+
+def _schema_av(name: str, dsof="grid") -> AV:
     """Abstract value of the grid variable `name` as stored in Grid._ds (standard form)."""
     m = _CONN_RE.match(name)
     if m:
